@@ -47,10 +47,28 @@ def log(*a):
     print(*a, flush=True)
 
 
+ALT_REPO = os.environ.get("VERIF_REPO", "")  # sensitivity runs: build against a scratch copy of /repo
+ALT_TAG = ("." + hashlib.sha256(ALT_REPO.encode()).hexdigest()[:8]) if ALT_REPO else ""
+
+
+def modfile_args():
+    """With VERIF_REPO set, a temporary go.mod pointing the replace directive at that copy."""
+    if not ALT_REPO:
+        return []
+    os.makedirs(os.path.join(ROOT, "work"), exist_ok=True)
+    mf = os.path.join(ROOT, "work", "alt%s.mod" % ALT_TAG)
+    with open(os.path.join(ROOT, "go.mod")) as f:
+        txt = f.read().replace("=> /repo", "=> " + ALT_REPO)
+    with open(mf, "w") as f:
+        f.write(txt)
+    shutil.copy(os.path.join(ROOT, "go.sum"), mf[:-4] + ".sum")
+    return ["-modfile=" + mf]
+
+
 def build(pid, cfg, race):
     os.makedirs(os.path.join(ROOT, "bin"), exist_ok=True)
-    out = os.path.join(ROOT, "bin", cfg["pkg"] + (".race" if race else "") + ".test")
-    cmd = ["go", "test", "-c", "-tags", "verif", "-vet=off", "-o", out]
+    out = os.path.join(ROOT, "bin", cfg["pkg"] + ALT_TAG + (".race" if race else "") + ".test")
+    cmd = ["go", "test", "-c", "-tags", "verif", "-vet=off", "-o", out] + modfile_args()
     if race:
         cmd.append("-race")
     cmd.append("./checks/" + cfg["pkg"])
@@ -123,7 +141,7 @@ def main():
     except ValueError:
         seed = 1
     t0 = time.time()
-    work = os.path.join(ROOT, "work", pid + ("-replay" if replay else ""))
+    work = os.path.join(ROOT, "work", pid + ALT_TAG + ("-replay" if replay else ""))
     shutil.rmtree(work, ignore_errors=True)
     os.makedirs(work)
     # rapid replays testdata/rapid first: make sure none exists
@@ -267,7 +285,7 @@ def main():
         if "fuzz" not in r or tier not in r["tiers"]:
             continue
         pkgdir = "./checks/" + (r.get("pkg") or cfg["pkg"])
-        cmd = ["go", "test", "-tags", "verif", "-vet=off", "-run", "^$", "-fuzz", "^" + r["fuzz"] + "$", "-fuzztime", "%ds" % r["seconds"], pkgdir]
+        cmd = ["go", "test", "-tags", "verif", "-vet=off"] + modfile_args() + ["-run", "^$", "-fuzz", "^" + r["fuzz"] + "$", "-fuzztime", "%ds" % r["seconds"], pkgdir]
         e = dict(ENV, VERIF_TIER=tier, VERIF_SEED=str(seed), VERIF_FUZZ="1")
         e.pop("VERIF_OUT", None)
         lg = os.path.join(work, r["name"] + ".log")
@@ -382,8 +400,9 @@ def main():
     }
     if inconclusive:
         ev["coverage"]["inconclusive"] = inconclusive
-    os.makedirs(os.path.join(ROOT, "evidence"), exist_ok=True)
-    with open(os.path.join(ROOT, "evidence", pid + ".json"), "w") as f:
+    evdir = os.path.join(ROOT, "evidence") if not ALT_REPO else os.path.join(work, "evidence")
+    os.makedirs(evdir, exist_ok=True)
+    with open(os.path.join(evdir, pid + ".json"), "w") as f:
         json.dump(ev, f, indent=1, sort_keys=True)
         f.write("\n")
 
